@@ -32,6 +32,10 @@ ASSUMPTIONS = [
     "depth <= axis length (dask documents a ValueError otherwise); asymmetric depth only with boundary 'none' (documented restriction)",
     "constant boundary values are representable in the array dtype",
     "trim_internal is given the same boundary as overlap (its documented keyword); the docs' 'Full Workflow' snippet omits it",
+    "explicit zero-size chunks are a separate ~8 % stratum (sig flag zero_chunk); NOT explored: a zero-size chunk on an axis of length "
+    "<= 1 (chunks (1, 0) / (0, 1)), which already breaks elementwise broadcasting/concatenate (C19 finding zero-chunk-on-len1-axis)",
+    "trim=False: f trims `depth` cells from both ends of every extended block itself (the documented use), so every overlapped axis is "
+    "given a boundary other than 'none' there; chunkings that need the rechunk-to-fit path are included",
 ]
 TECHNIQUE = "differential testing against a NumPy pad -> stencil -> trim reference; exhaustive chunkings for small shapes plus Hypothesis-generated depth/boundary/stencil combinations"
 
